@@ -456,6 +456,23 @@ def r_types_cache(ck: Checker, rule: str = "R-TYPES-CACHE") -> None:
     leaves = decision_tree(body, max_atoms=6)
     bad = []
     want = {"_TYPE_TO_CHILD_FIELDS": "CH", "_TYPE_TO_PROPS": "PR", "_TYPE_TO_ALL_FIELDS": ("merge", "CH", "PR")}
+    # a positive pattern: an entry is put into a table before the classifier has run (a failing classification leaves it behind)
+    calls_ = [c for c in walk_body(body) if isinstance(c, ast.Call) and dotted(c.func) == "process_node_fields"]
+    if calls_:
+        holders = [st_ for st_ in walk_body(body) if isinstance(st_, ast.stmt) and not isinstance(st_, (ast.If, ast.For, ast.While, ast.Try, ast.With))
+                   and any(c is x_ for c in calls_ for x_ in ast.walk(st_))]
+        first_line = min((st_.lineno, st_.col_offset) for st_ in holders) if holders else (10**9, 0)
+        for n_ in walk_body(body):
+            early = None
+            if isinstance(n_, ast.Call) and isinstance(n_.func, ast.Attribute) and n_.func.attr in ("setdefault", "__setitem__", "update") and norm(n_.func.value) in TABLES:
+                early = n_
+            elif isinstance(n_, ast.Subscript) and isinstance(n_.ctx, ast.Store) and norm(n_.value) in TABLES:
+                early = n_
+            if early is not None and (early.lineno, early.col_offset) < first_line:
+                ck.violation(rule, f, early, "the per-class tables get their entry only after process_node_fields(cls, ASTNode) has succeeded", positive=True,
+                             construct=f"_populate_type_dicts: {norm(early)[:60]} creates the entry before the fields are classified: when the classification raises "
+                             "(unresolved forward reference, invalid annotation) an empty entry stays behind and later lookups are answered from it")
+                return
     for lf in leaves:
         if lf.outcome not in ("fall", "return"):
             bad.append(f"path leaves by {lf.outcome}")
